@@ -112,8 +112,16 @@ def make_harness(cases):
         prehistory = "none"
         if kind in ("plain", "shared"):
             earlier, nchanged = _earlier_version(recipe) if kind == "plain" else (None, 0)
-            options = ["none", "another-tree-written-with-every-option-and-dialect-first"] + (["earlier-version-written-then-detached", "earlier-version-written-then-replaced-by-a-fresh-build"] if nchanged else [])
+            options = ["none", "another-tree-written-with-every-option-and-dialect-first", "sources-registered-by-name-before-their-text-was-known"] + (["earlier-version-written-then-detached", "earlier-version-written-then-replaced-by-a-fresh-build"] if nchanged else [])
             prehistory = e.pick(options, "prehistory")
+            if prehistory.startswith("sources-registered"):
+                # what a loader does: sources become known by type and uri (no text), other sources
+                # follow, and only then the same sources are created again with their text
+                from pyoak.origin import MemoryTextSource
+
+                MemoryTextSource(source_uri="srcA")
+                MemoryTextSource(source_uri="an-unrelated-source")
+                MemoryTextSource(source_uri="srcB")
             if prehistory.startswith("another-tree"):
                 # calls with options / dialects on ANOTHER tree (nodes without origin, an origin without
                 # source) earlier in the process: nothing of them may show in the plain output written later
